@@ -150,11 +150,11 @@ func builtinDateBeforeSet(call FunctionCall, argumentLimit int, timeLocal bool) 
 
 func builtinDateParse(call FunctionCall) Value {
 	date := call.Argument(0).string()
-	return float64Value(dateParse(date))
+	return float64Value(timeClip(dateParse(date)))
 }
 
 func builtinDateUTC(call FunctionCall) Value {
-	return float64Value(newDateTime(call.ArgumentList, time.UTC))
+	return float64Value(timeClip(newDateTime(call.ArgumentList, time.UTC)))
 }
 
 func builtinDateNow(call FunctionCall) Value {
